@@ -323,11 +323,13 @@ pub fn module_graph_1_to_2(module_info: &mut serde_json::Value) {
 
     let comment = leading_comments.last()?;
     let deno_types = find_deno_types(&comment.text)?;
+    // the match is in bytes of the comment text, positions are in characters
+    let char_index = |byte_index: usize| comment.text[..byte_index].chars().count();
     Some(SpecifierWithRange {
       text: deno_types.text.to_string(),
       range: comment_position_to_position_range(
         comment.range.start,
-        deno_types.range,
+        char_index(deno_types.range.start)..char_index(deno_types.range.end),
       ),
     })
   }
